@@ -9,12 +9,16 @@ func init() {
 				Quick: map[string]int{"rmax": 2, "classes": 14}, Thorough: map[string]int{"rmax": 3, "classes": 14},
 				Reach:     []string{"single", "batch of several", "empty batch"},
 				Functions: []string{"(*Gateway).Handler", "(*Gateway).queryHandler", "(*Gateway).queryHandler$1", "(*Gateway).queryHandler$2", "Results.Emit", "emitError", "(*Gateway).parseIntrospectionQuery", "(*Gateway).getQueryers", "requests.Parse", "requests.parseRequest", "common.AsyncMapReduce[int,*Result,Results]", "planner.SequentialPlanner.Plan", "introspection.(*IntrospectionResolver).ResolveIntrospectionFields", "gqlerrors.FormatError"}},
+			{Name: "batch-with-plan-cache", Pkg: ".", Files: []string{"root/fed.go", "root/c01.go", "root/c08.go"}, Entry: "VerifBatchCached", Mode: "seq", Native: true,
+				Reach:     []string{"cached batch compared"},
+				Functions: []string{"(*Gateway).queryHandler", "planner.(*CachedPlanner).Plan", "planner.(*CachedPlanner).hash", "planner.sanitizeSelectionSet", "executor.ParallelExecutor.Execute", "planner.ScrubFields.Clean"}},
 		},
 		Assume: []string{
+			"batch-with-plan-cache: the real planner behind the caching planner and the real executor against evaluating services; every ordered pair of a 6-operation pool (helper-field pairs, a named operation, a root __typename), on a fresh gateway or after an earlier batch; canonical schedule",
 			"the executor is a harness fake behind executor.Executor (what the real one computes is C01); the planner is the real one behind a wrapper that can fail",
 			"gqlparser.LoadQuery runs natively on the concrete operation strings of the pool",
 			"engine's model of channels/WaitGroup/select; encoding/json = abstract codec",
 		},
-		Outside: []string{"batches longer than rmax", "operations outside the 11-class pool"},
+		Outside: []string{"batches longer than rmax", "operations outside the 14-class pool"},
 	})
 }
